@@ -772,12 +772,17 @@ class BaseTaskPool:
             for task_set in self._group_meta_tasks_running.values()
             for task in task_set
         )
-        with suppress(CancelledError):
-            await gather(
-                *self._meta_tasks_cancelled,
-                *not_cancelled_meta_tasks,
-                return_exceptions=return_exceptions,
-            )
+        # Wait for all meta tasks. One that was cancelled before it started is
+        # a cancelled child; it must not cut the wait for the others short.
+        meta_results = await gather(
+            *self._meta_tasks_cancelled,
+            *not_cancelled_meta_tasks,
+            return_exceptions=True,
+        )
+        if not return_exceptions:
+            for result in meta_results:
+                if isinstance(result, Exception):
+                    raise result
         self._meta_tasks_cancelled.clear()
         self._group_meta_tasks_running.clear()
         await gather(
